@@ -63,6 +63,15 @@ def run_property(prop, tier, seed, jobs, only=None):
             bounded.extend(D.run_bounded(m, prop, tier, seed, known))
 
     lines, errors, violations, undecided, known_hit = [], [], [], [], {}
+    # the pipeline must be able to fail: correct bodies accepted, broken bodies refuted (contracts/selftest_bodies.py)
+    from . import selftest
+    st0 = time.time()
+    try:
+        st_errors = selftest.run(D.discharge, 'quick')
+    except Exception as ex:
+        st_errors = ['self-test crashed: %r' % ex]
+    selftest_info = dict(pairs=6, ok=not st_errors, seconds=round(time.time() - st0, 2))
+    errors.extend('self-test: ' + e for e in st_errors)
     n_obl = n_dis = 0
     samples = []
     functions = []
@@ -206,6 +215,7 @@ def run_property(prop, tier, seed, jobs, only=None):
         samples=samples or [dict(note='no proof obligations in this run')],
         exhaustive=False,
         assumption_markers_in_contracts=scan_assumption_markers(),
+        pipeline_selftest=selftest_info,
         not_proved=pm.get('not_proved', []),
     )
     if b_eval:
